@@ -83,7 +83,7 @@ def _replay_violation(mod, hname, cfg, v):
 
 def run_one(args):
     """Worker: explore one (harness, configuration) pair symbolically, replay what it finds."""
-    prop, idx, tier, seed = args
+    prop, idx, tier, seed, wall_override = args
     logging.disable(logging.CRITICAL)
     _start_monitoring()
     from symgem.core import Explorer, Replayer
@@ -93,6 +93,8 @@ def run_one(args):
     t0 = time.perf_counter()
     opts = dict(TIERS[tier])
     opts.update(getattr(mod, "EXPLORER_OPTS", {}).get(tier, {}))
+    if wall_override:
+        opts["wall_budget_s"] = wall_override
     before = set(_FUNCS_SEEN)
     ex = Explorer(seed=seed, **opts)
     out = dict(harness=hname, cfg=cfg, idx=idx)
@@ -200,6 +202,7 @@ def main(argv=None):
     ap.add_argument("--only", help="regex on harness name (development)")
     ap.add_argument("--jobs", type=int, default=int(os.environ.get("VERIF_JOBS", "0")) or min(16, os.cpu_count() or 1))
     ap.add_argument("--no-evidence", action="store_true")
+    ap.add_argument("--wall", type=float, help="per-configuration wall budget override (development)")
     a = ap.parse_args(argv)
     logging.disable(logging.CRITICAL)
     prop = a.prop
@@ -224,10 +227,10 @@ def main(argv=None):
     results = []
     if a.jobs == 1:
         for i in idxs:
-            results.append(run_one((prop, i, a.tier, seed)))
+            results.append(run_one((prop, i, a.tier, seed, a.wall)))
     else:
         with ProcessPoolExecutor(max_workers=a.jobs, mp_context=get_context("spawn")) as pool:
-            futs = [pool.submit(run_one, (prop, i, a.tier, seed)) for i in idxs]
+            futs = [pool.submit(run_one, (prop, i, a.tier, seed, a.wall)) for i in idxs]
             for f in as_completed(futs):
                 results.append(f.result())
     results.sort(key=lambda r: r["idx"])
